@@ -1,5 +1,192 @@
 package main
 
-func runBattery(id, repo string) interface{} { return nil }
+import (
+	"encoding/json"
+	"fmt"
+	"os"
+	"os/exec"
+	"path/filepath"
+	"sort"
+	"strings"
+	"sync"
+)
 
-func runVariant(prop, variant, repo string) int { return 2 }
+// A seed is a source variant applied in memory through packages.Config.Overlay: one instance of a rule broken
+// (Expect names the rule that must report it) or a behaviour-preserving edit (Expect == "": must stay silent).
+// The battery validates the checker, never the tree: an unkilled seed is a checker weakness reported in the
+// evidence, not a VIOLATION. Seeds whose anchor text no longer exists are skipped and counted.
+type seed struct {
+	Prop   string
+	Name   string
+	File   string // relative to the repository root
+	Old    string
+	New    string
+	Expect string // rule id(s), comma separated, one of which must be violated/undecided; "" for benign
+	Note   string
+	More   []edit // further edits of the same variant (e.g. a declaration the first edit needs)
+}
+
+type edit struct{ File, Old, New string }
+
+var seeds []seed
+
+func addSeeds(s ...seed) { seeds = append(seeds, s...) }
+
+type variantResult struct {
+	Name    string   `json:"name"`
+	Expect  string   `json:"expect"`
+	Applied bool     `json:"applied"`
+	Fired   []string `json:"fired"`
+	Outcome string   `json:"outcome"` // killed | missed | silent | false-alarm | skipped | error
+	Detail  string   `json:"detail,omitempty"`
+	Note    string   `json:"note,omitempty"`
+}
+
+// runVariant analyses one seeded variant and prints a JSON variantResult on stdout.
+func runVariant(prop, name, repo string) int {
+	var sd *seed
+	for i := range seeds {
+		if seeds[i].Prop == prop && seeds[i].Name == name {
+			sd = &seeds[i]
+		}
+	}
+	res := variantResult{Name: name}
+	emit := func() int {
+		b, _ := json.Marshal(res)
+		fmt.Println(string(b))
+		return 0
+	}
+	if sd == nil {
+		res.Outcome = "error"
+		res.Detail = "unknown seed"
+		return emit()
+	}
+	res.Expect, res.Note = sd.Expect, sd.Note
+	overlay := map[string][]byte{}
+	for _, e := range append([]edit{{sd.File, sd.Old, sd.New}}, sd.More...) {
+		path := filepath.Join(repo, e.File)
+		src, ok := overlay[path]
+		if !ok {
+			var err error
+			src, err = os.ReadFile(path)
+			if err != nil {
+				res.Outcome = "skipped"
+				res.Detail = err.Error()
+				return emit()
+			}
+		}
+		if strings.Count(string(src), e.Old) != 1 {
+			res.Outcome = "skipped"
+			res.Detail = fmt.Sprintf("anchor text occurs %d time(s) in %s", strings.Count(string(src), e.Old), e.File)
+			return emit()
+		}
+		overlay[path] = []byte(strings.Replace(string(src), e.Old, e.New, 1))
+	}
+	res.Applied = true
+	p := properties[prop]
+	cr := analyse(p, LoadOpts{Dir: repo, Overlay: overlay})
+	if cr.Err != nil {
+		res.Outcome = "error"
+		res.Detail = cr.Err.Error()
+		if len(res.Detail) > 400 {
+			res.Detail = res.Detail[:400]
+		}
+		return emit()
+	}
+	known, _ := readKnown(filepath.Join(filepath.Dir(filepath.Dir(os.Args[0])), "known_findings.txt"))
+	open := map[string]bool{}
+	for _, k := range known {
+		if k.Kind == "open" && k.Property == prop {
+			open[k.Key] = true
+		}
+	}
+	fired := map[string]bool{}
+	for _, ob := range cr.Report.Obs {
+		if ob.status != Discharged && !open[ob.Key()] {
+			fired[ob.Rule] = true
+			if res.Detail == "" {
+				res.Detail = ob.Key() + ": " + ob.Detail
+				if len(res.Detail) > 300 {
+					res.Detail = res.Detail[:300]
+				}
+			}
+		}
+	}
+	for r := range fired {
+		res.Fired = append(res.Fired, r)
+	}
+	sort.Strings(res.Fired)
+	switch {
+	case sd.Expect == "" && len(fired) == 0:
+		res.Outcome = "silent"
+	case sd.Expect == "":
+		res.Outcome = "false-alarm"
+	default:
+		hit := false
+		for r := range fired {
+			for _, e := range strings.Split(sd.Expect, ",") {
+				if r == e {
+					hit = true
+				}
+			}
+		}
+		if hit {
+			res.Outcome = "killed"
+		} else if len(fired) > 0 {
+			res.Outcome = "killed-by-other-rule"
+		} else {
+			res.Outcome = "missed"
+		}
+	}
+	return emit()
+}
+
+// runBattery runs every seed of the property, one subprocess per variant (bounds memory), 8 at a time.
+func runBattery(id, repo string) interface{} {
+	var mine []seed
+	for _, s := range seeds {
+		if s.Prop == id {
+			mine = append(mine, s)
+		}
+	}
+	results := make([]variantResult, len(mine))
+	sem := make(chan struct{}, 8)
+	var wg sync.WaitGroup
+	for i, s := range mine {
+		wg.Add(1)
+		go func(i int, s seed) {
+			defer wg.Done()
+			sem <- struct{}{}
+			defer func() { <-sem }()
+			cmd := exec.Command(os.Args[0], "-property", id, "-variant", s.Name, "-repo", repo)
+			out, err := cmd.Output()
+			var vr variantResult
+			if err != nil || json.Unmarshal(lastLine(out), &vr) != nil {
+				vr = variantResult{Name: s.Name, Expect: s.Expect, Outcome: "error", Detail: fmt.Sprintf("%v: %s", err, truncate(string(out), 300))}
+			}
+			results[i] = vr
+		}(i, s)
+	}
+	wg.Wait()
+	count := map[string]int{}
+	for _, r := range results {
+		count[r.Outcome]++
+	}
+	return map[string]interface{}{
+		"note":     "seeded variants analysed through an in-memory overlay; validates the checker, not the tree",
+		"variants": results,
+		"summary":  count,
+	}
+}
+
+func lastLine(b []byte) []byte {
+	lines := strings.Split(strings.TrimSpace(string(b)), "\n")
+	return []byte(lines[len(lines)-1])
+}
+
+func truncate(s string, n int) string {
+	if len(s) > n {
+		return s[:n]
+	}
+	return s
+}
